@@ -45,7 +45,7 @@ rt("direct_return",
    "do f(n) start\n" + BASE % "0" + "    return f(n add 1)\nend\n", "shout(f(0))\n",
    covers=["eval_builtin_call"])
 rt("direct_assign",
-   "do f(n) start\n" + BASE % "0" + "    make r get f(n add 1)\n    r get f(n add 1) add r\n    return r\nend\n",
+   "do f(n) start\n" + BASE % "0" + "    make r get f(n add 1)\n    r get r add 0\n    return r\nend\n",
    "make z get f(0)\nshout(z)\n")
 rt("mutual2",
    "do a(n) start\n" + BASE % "0" + "    return b(n add 1)\nend\n"
